@@ -168,6 +168,17 @@ def exchange(rng, res, devs, desc, twin=None):
             for d, ns, row in zip(devs, names, vals):
                 for n, v in zip(ns, row):
                     setattr(d, n, v)
+            # assignments the library rejects (value outside the format)
+            # must leave what the other process sees untouched
+            for d, ns in zip(devs, names):
+                for n in ns:
+                    f = type(d).c29_vars[n]
+                    if len(f) != 1 or f == "x":
+                        continue
+                    try:
+                        setattr(d, n, 1 << (8 * struct.calcsize(f)))
+                    except (struct.error, OverflowError, ValueError):
+                        res.count("rejected_parent_writes")
             parent.send(("read",))
             if not parent.poll(60):
                 res.inconc("child did not answer")
